@@ -141,7 +141,87 @@ pub struct Tables {
 static TABLES: OnceLock<Tables> = OnceLock::new();
 
 pub fn tables() -> &'static Tables {
-    TABLES.get_or_init(build_tables)
+    TABLES.get_or_init(|| {
+        // child processes of one run may be handed the parent's tables (same binary, same model)
+        // instead of rebuilding them: VERIF_TABLES_FILE names a file the parent wrote in this run
+        if let Ok(path) = std::env::var("VERIF_TABLES_FILE") {
+            if let Some(t) = load_tables(&path) {
+                return t;
+            }
+        }
+        build_tables()
+    })
+}
+
+const TABLES_MAGIC: u32 = 0x434B_4331;
+
+/// serialise the tables (little-endian, fixed layout, trailing checksum)
+pub fn save_tables(t: &Tables, path: &str) -> std::io::Result<()> {
+    let mut b: Vec<u8> = Vec::with_capacity(2_200_000);
+    b.extend(TABLES_MAGIC.to_le_bytes());
+    b.extend((t.keys.len() as u32).to_le_bytes());
+    for k in &t.keys {
+        b.extend(k.to_le_bytes());
+    }
+    for c in &t.class_size {
+        b.extend(c.to_le_bytes());
+    }
+    for f in &t.flush {
+        b.extend(f.to_le_bytes());
+    }
+    for f in &t.nonflush {
+        b.extend(f.to_le_bytes());
+    }
+    for r in &t.rep {
+        b.extend(r);
+    }
+    let mut h = 0xcbf29ce484222325u64;
+    for x in &b {
+        h ^= *x as u64;
+        h = h.wrapping_mul(0x100000001b3);
+    }
+    b.extend(h.to_le_bytes());
+    std::fs::write(path, b)
+}
+
+fn load_tables(path: &str) -> Option<Tables> {
+    let b = std::fs::read(path).ok()?;
+    if b.len() < 16 {
+        return None;
+    }
+    let (body, tail) = b.split_at(b.len() - 8);
+    let mut h = 0xcbf29ce484222325u64;
+    for x in body {
+        h ^= *x as u64;
+        h = h.wrapping_mul(0x100000001b3);
+    }
+    if h.to_le_bytes() != tail {
+        return None;
+    }
+    let mut pos = 0usize;
+    let u32_at = |pos: &mut usize| -> u32 {
+        let v = u32::from_le_bytes([body[*pos], body[*pos + 1], body[*pos + 2], body[*pos + 3]]);
+        *pos += 4;
+        v
+    };
+    if u32_at(&mut pos) != TABLES_MAGIC {
+        return None;
+    }
+    let n = u32_at(&mut pos) as usize;
+    if n != 7462 || body.len() != 8 + 4 * n + 4 * (n + 1) + 2 * 8192 + 2 * (1 << 20) + 5 * (n + 1) {
+        return None;
+    }
+    let keys: Vec<u32> = (0..n).map(|_| u32_at(&mut pos)).collect();
+    let class_size: Vec<u32> = (0..n + 1).map(|_| u32_at(&mut pos)).collect();
+    let u16s = |count: usize, pos: &mut usize| -> Vec<u16> {
+        let v = (0..count).map(|i| u16::from_le_bytes([body[*pos + 2 * i], body[*pos + 2 * i + 1]])).collect();
+        *pos += 2 * count;
+        v
+    };
+    let flush = u16s(8192, &mut pos);
+    let nonflush = u16s(1 << 20, &mut pos);
+    let rep: Vec<[u8; 5]> = (0..n + 1).map(|i| [body[pos + 5 * i], body[pos + 5 * i + 1], body[pos + 5 * i + 2], body[pos + 5 * i + 3], body[pos + 5 * i + 4]]).collect();
+    Some(Tables { keys, class_size, flush, nonflush, rep })
 }
 
 #[inline]
